@@ -84,6 +84,35 @@ def model (m : Metrics) (t : Text) (w : Span) (p : Pos) (sub : Span) : Res Obs :
           widen := sub.widenToLine win
           split := collectSpans 64 (SplitLines.ofSpan sub win) }
 
+/-- The same observation, the window being cut out of an intermediate source that does not start
+at the origin: route `c` = `parent.clipped(outer).clipped(w)`, route `s` = a source over the bytes
+of `outer` with `with_start_position(outer.start())`, then `.clipped(w)`. -/
+def modelNested (m : Metrics) (t : Text) (route : Char) (outer w : Span) (p : Pos) (sub : Span) : Res Obs :=
+  let parent : Source := ⟨t, m, Pos.zero⟩
+  let mid : Res Source :=
+    if route == 'c' then parent.clipped outer
+    else match Source.sliceBytes t outer.s.byte outer.e.byte with
+      | .panic => .panic
+      | .ok bytes => .ok ⟨bytes, m, outer.s⟩
+  match mid with
+  | .panic => .panic
+  | .ok mid =>
+  match mid.clipped w with
+  | .panic => .panic
+  | .ok win =>
+    .ok { text := .ok win.text
+          start := .ok win.startPosition
+          end_ := win.endPosition
+          full := win.fullSpan
+          next := win.nextPosition p
+          prev := win.previousPosition p
+          lineStart := win.lineStartPosition p
+          lineEnd := win.lineEndPosition p
+          prevLineEnd := win.previousLineEndPosition p
+          nextLineStart := win.nextLineStartPosition p
+          widen := sub.widenToLine win
+          split := collectSpans 64 (SplitLines.ofSpan sub win) }
+
 def ofSpec (s : Spec.WindowSpec) : Obs :=
   { text := .ok s.text, start := .ok s.start, end_ := .ok s.end_, full := .ok s.full
     next := .ok s.next, prev := .ok s.prev, lineStart := .ok s.lineStart, lineEnd := .ok s.lineEnd
@@ -103,20 +132,24 @@ def fieldNames : List String :=
 def diffNames (a b : List String) : String :=
   ",".intercalate (((fieldNames.zip (a.zip b)).filter (fun x => x.2.1 != x.2.2)).map (·.1))
 
-/-- fields: text, le, tab, window span, inner pos, sub span, implObs -/
-def run (fields : List String) : String × String :=
-  match fields with
-  | [t, le, tab, w, p, sub, impl] =>
+def runWith (t le tab w p sub : String) (outer : Option String) (impl : String) : String × String :=
     let t := parseText t
     let m : Metrics := ⟨parseLE le, nat! tab⟩
     let w := parseSpan w
     let p := parsePos p
     let sub := parseSpan sub
-    let mo := match model m t w p sub with
+    let outerSp : Option (Char × Span) := outer.map fun o => ((o.toList.headD 'c'), parseSpan (o.drop 1).toString)
+    let mo := match (match outerSp with
+        | none => model m t w p sub
+        | some (r, o) => modelNested m t r o w p sub) with
       | .panic => "panic"
       | .ok o => "|".intercalate (fieldsOf o ++ ["1"])
     let canonOK := fun (q : Pos) => Spec.isCanon m t q
-    if !(canonOK w.s && canonOK w.e && canonOK p && canonOK sub.s && canonOK sub.e) then
+    -- a window of a window is the window of the document: the specification does not mention `outer`
+    let outerOK := match outerSp with
+      | none => true
+      | some (_, o) => canonOK o.s && canonOK o.e && decide (o.s.byte ≤ w.s.byte) && decide (w.e.byte ≤ o.e.byte)
+    if !(canonOK w.s && canonOK w.e && canonOK p && canonOK sub.s && canonOK sub.e && outerOK) then
       (mo, "SKIP positions are not canonical") else
     match Spec.cut3 m t w.s.byte w.e.byte, Spec.cutAt m t p.byte, Spec.cut3 m t sub.s.byte sub.e.byte with
     | some (wa, wmid, wz), some (pre, suf), some (sa, smid, sz) =>
@@ -126,6 +159,12 @@ def run (fields : List String) : String × String :=
       let names := diffNames io so
       (mo, "FAIL " ++ names ++ " expected " ++ "|".intercalate so)
     | _, _, _ => (mo, "SKIP positions are not canonical")
+
+/-- fields: text, le, tab, window span, inner pos, sub span, [route ++ outer span], implObs -/
+def run (fields : List String) : String × String :=
+  match fields with
+  | [t, le, tab, w, p, sub, impl] => runWith t le tab w p sub none impl
+  | [t, le, tab, w, p, sub, outer, impl] => runWith t le tab w p sub (some outer) impl
   | _ => ("?", "FAIL bad case line")
 
 end Tephra.Fam.Window
